@@ -9,10 +9,11 @@ set -u
 PROP=$1; MDIR=$2; WT=$3; shift 3
 export GOFLAGS=-mod=mod GOPROXY=off GOSUMDB=off GOTOOLCHAIN=local
 NAME=$(basename "$MDIR")
+case "$MDIR" in *_out2*) NAME="r2$NAME";; esac
 OUT=/var/tmp/mutout/$PROP-$NAME
 rm -rf "$OUT"; mkdir -p "$OUT"
 cd "$WT" || exit 2
-git checkout -q -- . ; git clean -fdq -e _out
+git checkout -q -- . ; git clean -fdq -e _out -e _out2 -e _out2
 DEMOFILES=$(ls "$MDIR" | grep -E '_test\.go$|\.go$' | grep -v '^patch')
 rundemo() {
   # demos are test files for the project root unless DEMO.txt says otherwise
@@ -37,4 +38,4 @@ echo "$PROP $NAME: build=$BUILD tests=$TESTS demo_clean=$DEMO_CLEAN demo_patched
 for c in "$@"; do
   ( cd /verif && VERIF_REPO="$WT" VERIF_OUT="$OUT" timeout 2400 ./check "$c" --tier quick > "$OUT/check-$c.log" 2>&1; echo "$PROP $NAME: check $c rc=$? $(grep -c '^VIOLATION' "$OUT/check-$c.log") violation line(s): $(grep -m1 'violation:' "$OUT/check-$c.log" | cut -c1-220)" ) | tee -a "$OUT/confirm.txt"
 done
-cd "$WT" && git checkout -q -- . && git clean -fdq -e _out
+cd "$WT" && git checkout -q -- . && git clean -fdq -e _out -e _out2 -e _out2
